@@ -18,6 +18,9 @@ QuickDefs ==
              : iv \in { <<RZero, ROne>>, <<R(1,3), ROne>> } }
     \cup { PD("plate", R(2,1), R(3,2), RZero, RZero, ROne, 3, 3, FlFree, LamIso, RZero, ROne, R(3,1), Zero3) }
     \cup { PD("plate", R(2,1), R(3,2), RZero, RZero, ROne, 4, 4, FlFree, LamIso, RZero, ROne, R(3,1), Zero3) }
+    (* coincidences between unrelated lengths: the strip ends where y equals the panel LENGTH a (a < b) *)
+    \cup { PD(mo, R(1,1), R(2,1), IF mo = "cpanel" THEN R(4,1) ELSE RZero, RZero, ROne, 3, 3, FlPrimes, LamGen, RZero, R(1,2), R(3,1), Zero3)
+             : mo \in {"plate", "cpanel"} }
 ThoroughDefs ==
     QuickDefs
     \cup { PD(mo, ab[1], ab[2], IF mo \in {"plate", "plate_w"} THEN RZero ELSE r, RZero, ROne, mn[1], mn[2], fl, lam,
@@ -74,9 +77,10 @@ NLDefs == { PD(mo, R(2,1), R(3,2), IF mo = "cpanel" THEN R(4,1) ELSE RZero, RZer
           \cup { PD("plate", R(2,1), R(3,2), RZero, RZero, ROne, 4, 3, FlFree, LamGen, RZero, ROne, R(3,1), Zero3) }
 NLState(pd, amp) == Fn([k \in 1..(3 * pd.m * pd.n) |-> RMul(amp, R(((k * 5 + 2) % 9) - 4, 16))])
 NLRequests(pd) ==
-    IF pd.m = 4 THEN { [q |-> "kGc", c |-> NLState(pd, ROne), NL |-> FALSE] @@ NoPlace }
-    ELSE { [q |-> qq, c |-> NLState(pd, amp)] @@ NoPlace : qq \in {"fint", "kT"}, amp \in {ROne, R(1,8)} }
-         \cup { [q |-> "kGc", c |-> NLState(pd, ROne), NL |-> nl] @@ NoPlace : nl \in BOOLEAN }
+    IF pd.m = 4 THEN { [q |-> "kGc", c |-> NLState(pd, ROne), NL |-> FALSE, taper |-> Uniform] @@ NoPlace }
+    ELSE { [q |-> qq, c |-> NLState(pd, amp), taper |-> Uniform] @@ NoPlace : qq \in {"fint", "kT"}, amp \in {ROne, R(1,8)} }
+         \cup { [q |-> qq, c |-> NLState(pd, ROne), taper |-> <<ROne, R(1,4), R(-3,8)>>] @@ NoPlace : qq \in {"fint", "kT"} }
+         \cup { [q |-> "kGc", c |-> NLState(pd, ROne), NL |-> nl, taper |-> Uniform] @@ NoPlace : nl \in BOOLEAN }
 
 VARIABLE phase
 EmitInit == PInit /\ phase = 0
